@@ -23,6 +23,16 @@ def load_prop(pid):
     return importlib.import_module(f"vf.props.{pid.lower()}")
 
 
+def out_dir():
+    """/verif for the real tree; a scratch directory when VERIF_REPO points the checks at a
+    modified copy (so that experiments never overwrite the committed evidence)."""
+    if common.REPO == "/repo":
+        return common.VERIF_DIR
+    d = os.environ.get("VERIF_OUT", "/tmp/vf-out")
+    os.makedirs(d, exist_ok=True)
+    return d
+
+
 def load_floors(mod, tier):
     """Calibrated floors (vf/floors.json, see tools/calibrate_floors.py) or the module's literals."""
     path = os.path.join(os.path.dirname(os.path.abspath(__file__)), "floors.json")
@@ -105,8 +115,8 @@ def write_evidence(mod, tier, seed, results, wall, n_viol, known_seen, floors_mi
     problems = check_evidence(ev)
     if problems:
         print("EVIDENCE-INVALID " + "; ".join(problems))
-    os.makedirs(os.path.join(common.VERIF_DIR, "evidence"), exist_ok=True)
-    path = os.path.join(common.VERIF_DIR, "evidence", f"{mod.ID}.json")
+    os.makedirs(os.path.join(out_dir(), "evidence"), exist_ok=True)
+    path = os.path.join(out_dir(), "evidence", f"{mod.ID}.json")
     with open(path, "w") as fh:
         json.dump(ev, fh, indent=1, sort_keys=True)
         fh.write("\n")
@@ -211,7 +221,7 @@ def main(argv=None):
           f"{ev['coverage']['distinct_nontrivial']} violations={n_viol} known={len(known_seen)} "
           f"inconclusive={n_inc} wall={wall:.1f}s")
     if new:
-        rdir = os.path.join(common.VERIF_DIR, "replays", pid)
+        rdir = os.path.join(out_dir(), "replays", pid)
         os.makedirs(rdir, exist_ok=True)
         for case, r, fresh in new[:MAX_VIOLATION_LINES]:
             path = os.path.join(rdir, f"{case['id']}.json")
